@@ -91,6 +91,20 @@ def run(chk):
         else:
             chk.bad('C28-R4', 'FileCache::incremental_update', 'full-text', 'a content change without a range is skipped (`%s`): the server keeps the old text although the client replaced the document'
                     % T.show(none_path), CACHE, none_path.get('l') or g['line'])
+    # R6: every ranged change is located in, and applied to, the same working copy (earlier changes of the notification shift later ranges)
+    chk.rule('C28-R6', 'in incremental_update the text passed to pos_to_byte_index is the very string that replace_range mutates (the working copy that already holds the earlier '
+                       'changes of the same notification)')
+    targets = {T.show(T.peel(c['r'])) for c in T.calls(g['body']) if c.get('k') == 'MCall' and c['n'] == 'replace_range'}
+    convs = [c for c in T.calls(g['body']) if (T.cq(c) or '').endswith('pos_to_byte_index')]
+    if chk.need(len(targets) == 1 and len(convs) >= 2, 'incremental_update: expected one replace_range target and two position conversions'):
+        tgt = targets.pop()
+        for c in convs:
+            src_ = T.show(T.peel(c['a'][0]))
+            if src_ == tgt:
+                chk.ok('C28-R6', T.show(c), sample='pos_to_byte_index(&%s, ..) and %s.replace_range(..)' % (src_, tgt))
+            else:
+                chk.bad('C28-R6', 'FileCache::incremental_update', 'offsets-from:%s' % src_, 'byte offsets are computed in `%s` but applied to `%s`: with several changes in one '
+                        'notification the later ranges are located in stale text' % (src_, tgt), CACHE, c['l'])
     # R5
     writers = 0
     for fn in fx.fns(CACHE):
